@@ -3,6 +3,8 @@ package props
 import (
 	"fmt"
 	"math/rand/v2"
+	"os"
+	"path/filepath"
 	"strings"
 
 	"verifharness/gen"
@@ -253,6 +255,45 @@ func (p c03) Run(w *mon.Worker, idx int) mon.Result {
 		}
 		if hasRoot(ts) {
 			return skip("selection contains the root")
+		}
+		if (idx/9)%5 == 2 {
+			// the document comes out of a file read with load(): every load of the file is a document of its own, a
+			// delete in one of them removes nothing from the next one
+			lf := filepath.Join(w.Scratch, fmt.Sprintf("c03-load-%d.yaml", idx))
+			if werr := os.WriteFile(lf, []byte(doc.JSON()+"\n"), 0o644); werr != nil {
+				return skip("cannot write the file to load")
+			}
+			defer os.Remove(lf)
+			L := fmt.Sprintf("load(%q)", lf)
+			D := "del(" + pe.String() + ")"
+			var expr string
+			var wantL []*ref.V
+			after := ref.DeletePaths(doc, paths(ts))
+			switch r.IntN(4) {
+			case 0:
+				expr, wantL = fmt.Sprintf("[%s | %s, %s | %s]", L, D, L, D), []*ref.V{after, after}
+			case 1:
+				expr, wantL = fmt.Sprintf("[%s | %s, %s]", L, D, L), []*ref.V{after, doc}
+			case 2:
+				expr, wantL = fmt.Sprintf("[1, 2, 3] | map(%s | %s)", L, D), []*ref.V{after, after, after}
+			default:
+				expr, wantL = fmt.Sprintf("[%s, (%s | %s), %s]", L, L, D, L), []*ref.V{doc, after, doc}
+			}
+			cs["expr"] = strings.ReplaceAll(expr, lf, "f.yaml")
+			res.Tags = append(res.Tags, "loaded_file")
+			res.Sig = fmt.Sprintf("loaded|%s|%x", pathShape(pe), doc.ShapeHash())
+			want := ref.SeqV(wantL...)
+			got, _, yerr := evalDocFmt(expr, ref.NullV(), "yaml")
+			res.Evals++
+			if yerr != nil {
+				return fail("`%s` failed: %v", cs["expr"], yerr)
+			}
+			if got == nil || !ref.EqualNum(got, want) {
+				return fail("`%s` (f.yaml holds %s)\n expected %s\n observed %s", cs["expr"], doc, want, got)
+			}
+			res.Verdict, res.Nontrivial = mon.Held, nontrivial(doc, ts)
+			res.Detail = fmt.Sprintf("%d location(s) removed from each loaded copy", len(ts))
+			return res
 		}
 		expr := "del(" + pe.String() + ")"
 		cs["expr"] = expr
